@@ -407,7 +407,7 @@ func runCheck(prop, tier string, jobs int, only string, verbose, writeEvidence b
 		}
 		pi := propInfo(prop)
 		ev := map[string]interface{}{
-			"property_id": prop, "tier": tier, "seed": seed, "level": "model_checking",
+			"property_id": prop, "tier": tier, "seed": seed, "level": evidenceLevel(prop),
 			"coverage": map[string]interface{}{
 				"states":                        maxInt(paths, 0),
 				"transitions":                   instrs,
@@ -438,6 +438,13 @@ func runCheck(prop, tier string, jobs int, only string, verbose, writeEvidence b
 		os.WriteFile(filepath.Join(verifDir, "evidence", prop+".json"), bs, 0o644)
 	}
 	return exit
+}
+
+func evidenceLevel(prop string) string {
+	if prop == "C19" {
+		return "other" // frame argument + static scan instead of interleaving exploration (matches MANIFEST)
+	}
+	return "model_checking"
 }
 
 func maxInt(a, b int) int {
